@@ -3,6 +3,7 @@ package props
 import (
 	"fmt"
 	"os"
+	"path/filepath"
 	"strings"
 	"sync"
 	"sync/atomic"
@@ -289,6 +290,133 @@ func c19LargeWorkingSet(c *Ctx, n int) (evals int64) {
 	return evals
 }
 
+// c19Replaced: the list files are REPLACED ON DISK (write + rename, the ordinary
+// list update) while the engines built from the old files live, and the
+// descriptors are closed behind the lists.  The offsets the engines hold belong
+// to the old files; whatever is at the paths now must never be served.  Every
+// case works on private copies of the files.  Sequential.
+var c19ReplacementKinds = []string{"every list file replaced by its old content behind one more line terminator (offsets shifted by 1)", "... behind a 2-byte comment line", "... behind a 7-byte comment line", "the two list files replaced by each other's content", "every list file replaced by an exception list of the same layout"}
+
+func c19Replacement(kind int, li int) string {
+	old := c19Lists[li].Text
+	switch kind {
+	case 0:
+		return "\n" + old
+	case 1:
+		return "!\n" + old
+	case 2:
+		return "! upd.\n" + old
+	case 3:
+		return c19Lists[1-li].Text
+	default:
+		// same offsets for the first rules: "||example.org^" -> "@@||example.org^" would shift; keep the
+		// layout by rewriting in place the characters of the comment in front of them
+		return strings.Replace(strings.Replace(old, "! list 1 (file)\n||example.org^\n", "! list 1 (fil\n@@||example.org^\n", 1), "# list 2 (file)\n||ads.example.com^\n", "# list 2 (fil\n@@||ads.example.com^\n", 1)
+	}
+}
+
+var c19RepSeq atomic.Int64
+
+func c19Replaced(c *Ctx, qs []scen.Query, truth []map[string]bool, only []int) (evals, cases int64) {
+	dir := os.Getenv("VERIF_WORK")
+	var hists [][]int
+	for q := range qs {
+		if qs[q].Kind == "newengine" {
+			continue
+		}
+		hists = append(hists, []int{q})
+		for q0 := range qs {
+			if qs[q0].Kind != "newengine" {
+				hists = append(hists, []int{q0, q})
+			}
+		}
+	}
+	descFaults := []string{"File.Close() on both lists", "both handles replaced by closed descriptors of the same paths"}
+	for rk := range c19ReplacementKinds {
+		for df := range descFaults {
+			for _, hist := range hists {
+				if only != nil && (only[0] != rk || only[1] != df || fmt.Sprint(only[2:]) != fmt.Sprint(hist)) {
+					continue
+				}
+				cases++
+				seq := c19RepSeq.Add(1)
+				var ls []filterlist.RuleList
+				var fls []*filterlist.FileRuleList
+				var paths []string
+				for li, l := range c19Lists {
+					p := filepath.Join(dir, fmt.Sprintf("c19rep-%d-%d-%d.txt", os.Getpid(), seq, li))
+					if err := os.WriteFile(p, []byte(l.Text), 0o644); err != nil {
+						panic(HarnessError(err.Error()))
+					}
+					paths = append(paths, p)
+					fl, err := filterlist.NewFileRuleList(l.ID, p, false)
+					if err != nil {
+						panic(HarnessError(err.Error()))
+					}
+					ls, fls = append(ls, fl), append(fls, fl)
+				}
+				ls = append(ls, &filterlist.StringRuleList{ID: c19StringList.ID, RulesText: c19StringList.Text})
+				st, err := filterlist.NewRuleStorage(ls)
+				if err != nil {
+					panic(HarnessError(err.Error()))
+				}
+				e := &scen.Engines{Net: urlfilter.NewNetworkEngine(st), DNS: urlfilter.NewDNSEngine(st), Eng: urlfilter.NewEngine(st)}
+				var names []string
+				for _, h := range hist {
+					names = append(names, qs[h].String())
+				}
+				desc := fmt.Sprintf("history %v, before its last query: %s; %s", names, c19ReplacementKinds[rk], descFaults[df])
+				replay := map[string]any{"replaced": append([]int{rk, df}, hist...)}
+				for i, h := range hist {
+					if i == len(hist)-1 {
+						for li, p := range paths {
+							if err := os.WriteFile(p+".new", []byte(c19Replacement(rk, li)), 0o644); err != nil {
+								panic(HarnessError(err.Error()))
+							}
+							if err := os.Rename(p+".new", p); err != nil {
+								panic(HarnessError(err.Error()))
+							}
+						}
+						for li, fl := range fls {
+							if df == 0 {
+								_ = fl.File.Close()
+							} else {
+								old := fl.File
+								fl.File = closedHandle(paths[li])
+								_ = old.Close()
+							}
+						}
+					}
+					var got []string
+					var lie string
+					evals++
+					if p := protect(func() { got, lie = c19Result(e, qs[h]) }); p != nil {
+						c.Run.Violate(ev.Violation{Pred: "no-crash", Sig: map[string]any{"query": qs[h].String(), "replaced": rk}, What: fmt.Sprintf("%s panics: %v (%s)", qs[h], p, desc), Replay: replay})
+						break
+					}
+					if lie != "" {
+						c.Run.Violate(ev.Violation{Pred: "returned-rule-truly-matches", Sig: map[string]any{"query": qs[h].String(), "rule": lie, "replaced": rk},
+							What: fmt.Sprintf("%s returned %q which does not match the request (%s)", qs[h], lie, desc), Replay: replay})
+					}
+					if qs[h].Kind != "engine" {
+						for _, t := range got {
+							if !truth[h][t] {
+								c.Run.Violate(ev.Violation{Pred: "result-subset-of-fault-free", Sig: map[string]any{"query": qs[h].String(), "extra": t, "replaced": rk},
+									What: fmt.Sprintf("%s returned %q which is not among the rules of the lists the engine was built from that match the request (%s)", qs[h], t, desc), Replay: replay})
+							}
+						}
+					}
+				}
+				for li, fl := range fls {
+					_ = fl.File.Close()
+					_ = os.Remove(paths[li])
+				}
+			}
+		}
+	}
+	return evals, cases
+}
+
 func init() {
 	register("C19", "fault_enumeration", func(c *Ctx) {
 		scen.FileDir = os.Getenv("VERIF_WORK")
@@ -469,6 +597,14 @@ func init() {
 				c19MidRead(c)
 				return
 			}
+			if raw, ok := c.Replay["replaced"].([]any); ok {
+				var only []int
+				for _, v := range raw {
+					only = append(only, int(v.(float64)))
+				}
+				c19Replaced(c, qs, truth, only)
+				return
+			}
 			if n, ok := c.Replay["large"].(float64); ok {
 				c19LargeWorkingSet(c, int(n))
 				return
@@ -556,7 +692,11 @@ func init() {
 		}
 		midEvals := c19MidRead(c)
 		c.Run.Set("mid_retrieval_fault_evaluations", midEvals)
-		evals += largeEvals + midEvals
+		repEvals, repCases := c19Replaced(c, qs, truth, nil)
+		c.Run.Set("replaced_on_disk_cases", repCases)
+		c.Run.Set("replaced_on_disk_evaluations", repEvals)
+		cases += repCases
+		evals += largeEvals + midEvals + repEvals
 		c.Run.Set("large_working_set_sizes", fmt.Sprint(largeSizes))
 		c.Run.Set("large_working_set_evaluations", largeEvals)
 		c.Run.Sample(map[string]any{"history": []string{qs[0].String(), qs[3].String(), qs[0].String()}, "fault_before_query": 1, "fault": c19FaultKinds[0]})
@@ -565,8 +705,8 @@ func init() {
 		c.Run.Set("fault_cases", cases)
 		c.Run.Set("evaluations", evals)
 		c.Run.Set("distinct_nontrivial", cases)
-		c.Run.Set("rule", fmt.Sprintf("every query history of length 1..%d over %d queries (the longest ones over the first 14) (network/DNS/engine, each hitting a different table or list; two file-backed lists and one string list) x every fault point 0..n x 5 fault kinds (Close, either or both file handles replaced by closed descriptors, both replaced by handles of an empty file), for histories of at most %d queries also followed by every second fault at or after the first; every case is distinct; each query after the fault: no panic, every returned rule truly matches, result subset of the rules that individually match (the fault-free result plus what precedence hid), rules in memory at fault time (cache keys, sequential-table rules, string-backed rules) still served", n, len(qs), doubleFaultLen))
+		c.Run.Set("rule", fmt.Sprintf("every query history of length 1..%d over %d queries (the longest ones over the first 14) (network/DNS/engine, each hitting a different table or list; two file-backed lists and one string list) x every fault point 0..n x 5 fault kinds (Close, either or both file handles replaced by closed descriptors, both replaced by handles of an empty file), for histories of at most %d queries also followed by every second fault at or after the first; every case is distinct; each query after the fault: no panic, every returned rule truly matches, result subset of the rules that individually match (the fault-free result plus what precedence hid), rules in memory at fault time (cache keys, sequential-table rules, string-backed rules) still served; plus every history of one or two queries x %d ways of replacing the list files on disk (offsets shifted by 1, 2, 7 bytes, files swapped, an exception list of the same layout) x 2 ways of closing the descriptors behind the lists before the last query: nothing of the new files is ever served", n, len(qs), doubleFaultLen, len(c19ReplacementKinds)))
 		c.Run.Set("exhaustive", exhaustive)
-		c.Run.Assumption("fault kinds are those reachable through the public API (RuleStorage.Close, exported FileRuleList.File); a read error in the middle of a line is injected at the block boundary (hook point file.read-next-chunk)")
+		c.Run.Assumption("fault kinds are those reachable through the public API (RuleStorage.Close, exported FileRuleList.File); a read error in the middle of a line is injected at the block boundary (hook point file.read-next-chunk); a list file replaced on disk is combined with descriptors closed behind the lists only (with open descriptors the old file stays readable on this platform)")
 	})
 }
